@@ -1203,7 +1203,7 @@ def h_samples(ctx, group):
     shape = ctx.pick('session', sample.shapes or [(True, True, False), (False, False, False)])
     ctx.note('text', sample.text)
     got = run_case(ctx, sample, shape, sample.values)
-    if sample.expect is not None and got[0] in ('accept', 'refuse'):
+    if sample.expect == 'refuse' and got[0] in ('accept', 'refuse'):  # expect == 'accept' is the rfc-value-accepted obligation of run_case
         ctx.check('expected-outcome', got[0] == sample.expect, sig='C18:%s:sample-%s-expected:%s' % (sample.kw, sample.expect, sample.text.replace(' ', '_')),
                   info={'text': sample.text, 'got': got[0]})
     ctx.cover(got[0])
